@@ -518,14 +518,22 @@ class CallMixin:
             return z3.And(*cs) if cs else z3.BoolVal(True), b
         in_rng = z3.And(0 <= i, i < ln)
         if alts:
-            cnd, body = body_for(base_arr[i], z3.And(in_rng, *[i != k for k, _ in alts]))
-            for k, v in reversed(alts):
+            # all(...) = AND over the written positions (ground) AND forall over the untouched positions; any(...) dually.
+            # A position written twice counts with its LAST value (outermost store first in `alts`).
+            ground, done = [], []
+            for k, v in alts:
+                live = z3.And(0 <= k, k < ln, *[k != k2 for k2 in done])
                 c2, b2 = body_for(v, z3.And(in_rng, i == k))
-                cnd, body = z3.If(i == k, c2, cnd), z3.If(i == k, b2, body)
-            conds = [cnd]
-        else:
-            cnd, body = body_for(arr[_ix(i, off)], in_rng)
-            conds = [cnd]
+                ground.append((live, c2, b2))
+                done.append(k)
+            other = z3.And(in_rng, *[i != k for k in done])
+            cnd, body = body_for(base_arr[i], other)
+            if is_all:
+                return mk_bool(z3.And(*([z3.Implies(z3.And(l, c), b) for l, c, b in ground] +
+                                        [z3.ForAll([i], z3.Implies(z3.And(other, cnd), body))])))
+            return mk_bool(z3.Or(*([z3.And(l, c, b) for l, c, b in ground] + [z3.Exists([i], z3.And(other, cnd, body))])))
+        cnd, body = body_for(arr[_ix(i, off)], in_rng)
+        conds = [cnd]
         rng = z3.And(0 <= i, i < ln, *conds)
         if is_all:
             return mk_bool(z3.ForAll([i], z3.Implies(rng, body)))
